@@ -298,3 +298,70 @@ def point_argument_agreement(ctx, rule, owners, ref_class="RigidBody"):
                         rep.bad(rule, C, call, f"`{recv}.{m}` is evaluated with {key}={v} while the other {len(vals[major])} point-protocol calls of this element use "
                                 f"{key}={major}: position/energy, velocity and force direction no longer refer to the same material point", f"{rel}:{call.lineno}")
     return n_groups
+
+
+def state_slice_agreement(ctx, rule, owners, ref_class="RigidBody"):
+    """owners: [(construct label, rel, ast node)].  The kinematic accessor lambdas of a two-body element (contact, joint) hand each body
+    ITS block of the element's coordinates: inside one owner, every call on the same receiver passes the same slice of the lambda's
+    q / u / u_dot parameter (`q[:nq1]`, `u[nu1:]`, ...), the lambda parameters being named by position (t, q, u, u_dot) so that
+    `a[nu1:]` and `u_dot[nu1:]` are the same thing.  A body evaluated with the other body's block (silent when both blocks have
+    the same length, e.g. two rigid bodies) breaks every derivative chain that goes through that accessor."""
+    rep = ctx.rep
+    model = ctx.model
+    ref = model.cls(ref_class)
+    canon = ["t", "q", "u", "u_dot"]
+    n_groups = 0
+    for label, rel, node in owners:
+        groups = {}
+        for (recv, m, call) in subsystem_calls(node):
+            lam = call
+            while lam is not None and not isinstance(lam, ast.Lambda):
+                lam = getattr(lam, "_parent", None)
+            if lam is None or not isinstance(getattr(lam, "_parent", None), ast.Assign):
+                continue
+            c, fn = model.find_method(ref, m)
+            if fn is None:
+                continue
+            lparams = [a.arg for a in lam.args.args]
+            ren = {p: canon[i] for i, p in enumerate(lparams) if i < len(canon)}
+            params = [a.arg for a in fn.args.args][1:]
+            got = {}
+            for i, a in enumerate(call.args):
+                if i < len(params):
+                    got[params[i]] = a
+            for k in call.keywords:
+                if k.arg:
+                    got[k.arg] = k.value
+            for p in ("q", "u", "u_dot"):
+                a = got.get(p)
+                if a is None:
+                    continue
+                names = {x.id for x in ast.walk(a) if isinstance(x, ast.Name)}
+                if not (names & set(ren)):
+                    continue
+                import copy
+                b = copy.deepcopy(a)
+                for x in ast.walk(b):
+                    if isinstance(x, ast.Name) and x.id in ren:
+                        x.id = ren[x.id]
+                groups.setdefault((recv, p), []).append((m, call, norm_src(b)))
+        for (recv, p), lst in sorted(groups.items()):
+            if len(lst) < 2:
+                continue
+            n_groups += 1
+            C = f"{rel}:{label}"
+            vals = {}
+            for item in lst:
+                vals.setdefault(item[2], []).append(item)
+            if len(vals) == 1:
+                rep.ok(rule, C, f"{len(lst)} accessor calls on `{recv}` all pass {p} = {list(vals)[0]}")
+                continue
+            major = max(vals.items(), key=lambda kv: len(kv[1]))[0]
+            for v, items in vals.items():
+                if v == major:
+                    continue
+                for (m, call, _) in items:
+                    rep.bad(rule, C, call, f"`{recv}.{m}` is evaluated with {p} = {v} while the other {len(vals[major])} accessor calls on `{recv}` pass {p} = {major}: this body is "
+                            f"handed the OTHER block of the element's coordinates (no error when both blocks have the same length), so the quantity built from it is not the "
+                            f"time derivative / partial derivative of its siblings", f"{rel}:{call.lineno}")
+    return n_groups
